@@ -74,4 +74,25 @@ theorem limit_zero_contributes_nothing (c : Cand) (h : c.limit = some 0) :
   · right; exact List.length_eq_zero_iff.1 (by omega)
   · left; simp [hl]
 
+
+/-! ### kind classes -/
+
+def toCls : EventType → SqliteSpec.Cls
+  | .regular => .regular
+  | .replaceable => .replaceable
+  | .ephemeral => .ephemeral
+  | .addressable => .addressable
+
+/-- the classification the row builders use (`Event.EventType`, regenerated) is the statement's:
+    replaceable = 0, 3, 10000–19999; ephemeral = 20000–29999; addressable = 30000–39999 -/
+theorem eventType_eq_cls (k : Int) : toCls (eventType k) = SqliteSpec.cls k := by
+  simp only [eventType, Gen.isReplaceableKind, Gen.isEphemeralKind, Gen.isAddressableKind, SqliteSpec.cls]
+  by_cases h1 : (k == 0 || k == 3 || (decide (10000 ≤ k) && decide (k < 20000))) = true
+  · simp [h1, toCls]
+  · by_cases h2 : (decide (20000 ≤ k) && decide (k < 30000)) = true
+    · simp [h1, h2, toCls]
+    · by_cases h3 : (decide (30000 ≤ k) && decide (k < 40000)) = true
+      · simp [h1, h2, h3, toCls]
+      · simp [h1, h2, h3, toCls]
+
 end Moc.C06
